@@ -216,7 +216,8 @@ func snapshot(intp *postscript.Interpreter, err error) string {
 	s.dict(intp.UserDict, 0, true)
 	s.sb.WriteString("\nsystemdict: ")
 	s.dict(intp.SystemDict, 0, true)
-	s.sb.WriteString("\n")
+	// structured comments are part of the effect of executing a text
+	fmt.Fprintf(&s.sb, "\ndsc: %q\n", intp.DSC)
 	return s.sb.String()
 }
 
@@ -510,6 +511,8 @@ var plaintexts = func() []plaintext {
 		mkPlain("systemdict-on-top", "/zzverif 5 def currentdict /zzverif known userdict /zzverif known ", "mark currentfile closefile\n", "mark", true),
 		mkPlain("comments-and-strings", "% comment inside\n/h <41 42> def /g (\\(\x80\xff\\)) def %x\r", "mark currentfile closefile\n", "mark", true),
 		mkPlain("two-readstrings", "currentfile 3 string readstring\n\x00\r\n pop currentfile 2 string readstring \n\n pop ", "mark currentfile closefile\n", "mark", true),
+		mkPlain("dsc-then-readstring", "/R {currentfile 7 string readstring pop} def\n%%BeginData: x\nR abcdefg /after 1 def ", "mark currentfile closefile\n", "mark", true),
+		mkPlain("dsc-inside", "/z 0 def\n%%Inside: yes\n%%+ more\n/a 1 def\n/b 2 def\n%%Second: s\n", "mark currentfile closefile\n", "mark", true),
 		mkPlain("long", longDefs(), "mark currentfile closefile\n", "mark", true),
 	}
 	ps[2].long = true
